@@ -124,6 +124,9 @@ pub struct Invocation {
     /// also give `-i` on the top level, before the `format-all` subcommand (clap checks flag
     /// conflicts per command level, so this combination is accepted)
     pub inplace_first: bool,
+    /// create the files of the tree in descending instead of ascending name order before the run
+    /// (the order in which a directory lists its entries follows the creation order on tmpfs)
+    pub reverse_creation: bool,
 }
 
 impl Invocation {
@@ -179,7 +182,7 @@ impl Invocation {
         matches!(&self.mode, Mode::CheckFiles(_) | Mode::Stdin(_, true) | Mode::FormatAll(_, true))
     }
     pub fn show(&self) -> String {
-        format!("typstyle {}", self.argv(Path::new("<root>")).join(" "))
+        format!("typstyle {}{}", self.argv(Path::new("<root>")).join(" "), if self.reverse_creation { " [files created in descending order]" } else { "" })
     }
 }
 
@@ -334,10 +337,14 @@ fn sandbox_dir() -> PathBuf {
     })
 }
 
-fn materialise(root: &Path, tree: &Tree) {
+fn materialise(root: &Path, tree: &Tree, reverse: bool) {
     let _ = std::fs::remove_dir_all(root);
     std::fs::create_dir_all(root).unwrap();
-    for (slot, e) in tree {
+    let mut entries: Vec<(&String, &Entry)> = tree.iter().collect();
+    if reverse {
+        entries.reverse();
+    }
+    for (slot, e) in entries {
         let p = root.join(slot);
         if let Some(parent) = p.parent() {
             std::fs::create_dir_all(parent).unwrap();
@@ -380,7 +387,7 @@ fn walk_files(root: &Path, dir: &Path, out: &mut Vec<String>) {
 
 pub fn execute(tree: &Tree, inv: &Invocation) -> Observed {
     let root = sandbox_dir().join("proj");
-    materialise(&root, tree);
+    materialise(&root, tree, inv.reverse_creation);
     let mut cmd = Command::new(cli_bin());
     cmd.args(inv.argv(&root)).current_dir(&root).env("NO_COLOR", "1").stdout(Stdio::piped()).stderr(Stdio::piped());
     let stdin_bytes = if let Mode::Stdin(b, _) = &inv.mode { Some(b.clone()) } else { None };
@@ -665,7 +672,7 @@ impl Model for CliModel {
         let cands = self.file_candidates(tree);
         let lists = ordered_lists(&cands, 3);
         let want_check = self.property == "C14";
-        let inv = |mode: Mode, style: Style, verbosity: &'static str, check_first: bool| Invocation { mode, style, verbosity, check_first, inplace_first: false };
+        let inv = |mode: Mode, style: Style, verbosity: &'static str, check_first: bool| Invocation { mode, style, verbosity, check_first, inplace_first: false, reverse_creation: false };
         for (si, &style) in styles.iter().enumerate() {
             for l in &lists {
                 // the second style only with lists of <= 2 entries in the quick tier
@@ -703,6 +710,10 @@ impl Model for CliModel {
                 }
                 if si == 0 {
                     actions.push(Invocation { inplace_first: true, ..inv(Mode::FormatAll(d.clone(), want_check), style, "", false) });
+                    // a hidden file next to visible entries: both listing orders of the directory
+                    if tree.keys().any(|k| k.rsplit('/').next().is_some_and(hidden)) && tree.len() > 1 {
+                        actions.push(Invocation { reverse_creation: true, ..inv(Mode::FormatAll(d.clone(), want_check), style, "", false) });
+                    }
                 }
             }
             if want_check {
@@ -755,7 +766,7 @@ impl Model for CliModel {
                 cfg: None,
                 detail,
                 derivation: format!("tree of {} entries", tree.len()),
-                extra: json!({"tree": tree_json(tree), "argv": inv.argv(Path::new("<root>")), "stdin": if let Mode::Stdin(b, _) = &inv.mode { Some(String::from_utf8_lossy(b).to_string()) } else { None }}),
+                extra: json!({"tree": tree_json(tree), "argv": inv.argv(Path::new("<root>")), "reverse_creation": inv.reverse_creation, "stdin": if let Mode::Stdin(b, _) = &inv.mode { Some(String::from_utf8_lossy(b).to_string()) } else { None }}),
                 count: 1,
             });
         }
@@ -978,7 +989,7 @@ fn inv_from_json(v: &Value) -> Option<Invocation> {
         "format-all" => Mode::FormatAll(v.get("dir").and_then(|d| d.as_str()).map(|s| s.to_string()), v.get("check").and_then(|c| c.as_bool()).unwrap_or(false)),
         _ => return None,
     };
-    Some(Invocation { mode, style, verbosity: "", check_first: false, inplace_first: false })
+    Some(Invocation { mode, style, verbosity: "", check_first: false, inplace_first: false, reverse_creation: v.get("reverse_creation").and_then(|c| c.as_bool()).unwrap_or(false) })
 }
 
 // --------------------------------------------------------------------------------------- C16
@@ -1034,6 +1045,16 @@ fn corpus() -> Vec<(String, Vec<u8>)> {
         big.push_str(&format!("#let v{i} = f(a{i}, (b: {i}, c: \"s{i}\"), x => x + {i})\n- item {i} with $x_{i}$\n\n"));
     }
     add("big_100k", &big);
+    // last lines around the 1 024-byte line buffer of stdout and texts beyond the 64 KiB pipe buffer,
+    // with and without a final line feed, well-formed and erroneous (an erroneous text is echoed as it is)
+    for n in [1023usize, 1024, 1025, 5000, 70_000] {
+        let long = "x".repeat(n);
+        add(&format!("longlast_ok_{n}"), &format!("#let a = 1\n{long}"));
+        add(&format!("longlast_ok_nl_{n}"), &format!("#let a = 1\n{long}\n"));
+        add(&format!("longlast_err_{n}"), &format!("#let a = (\n{long}"));
+        add(&format!("longlast_err_nl_{n}"), &format!("#let a = (\n{long}\n"));
+    }
+    add("oneline_err_70k", &format!("#f({}", "a, ".repeat(23_000)));
     // fixtures of the repository (unit tests; a representative, deterministic slice)
     let mut fx: Vec<PathBuf> = vec![];
     fn walk(d: &Path, out: &mut Vec<PathBuf>) {
@@ -1218,6 +1239,18 @@ pub fn run_c16(tier: &str, seed: u64) -> i32 {
                                 if got.as_bytes() != &expect[i][..] {
                                     fail("format_with_width", format!("file={n}"), format!("width={col}: format_with_width returns {} but Typstyle::new(cfg).format_content gives {}", esc(&got).chars().take(200).collect::<String>(), esc(&String::from_utf8_lossy(&expect[i])).chars().take(200).collect::<String>()), json!({"width": col, "file": n}));
                                 }
+                                // the function's own result fed back at two other widths (what an editor
+                                // does when the user changes the width): still the library's answer
+                                if b.len() < 4000 {
+                                    for w2 in [col / 2, col + 37] {
+                                        comparisons.fetch_add(1, Ordering::Relaxed);
+                                        let again = typstyle_core::format_with_width(&got, w2);
+                                        let want = lib_format(got.as_bytes(), w2, 2, false);
+                                        if again.as_bytes() != &want[..] {
+                                            fail("format_with_width-after-own-output", format!("file={n}"), format!("format_with_width(format_with_width(x, {col}), {w2}) returns {} but the library gives {}", esc(&again).chars().take(200).collect::<String>(), esc(&String::from_utf8_lossy(&want)).chars().take(200).collect::<String>()), json!({"width": col, "width2": w2, "file": n}));
+                                        }
+                                    }
+                                }
                             }
                         }
                     }
@@ -1321,7 +1354,8 @@ pub fn replay(v: &Value, path: &str) -> i32 {
         Mode::Inplace(positional)
     };
     let inv = Invocation { mode, style, verbosity, check_first: argv.first().is_some_and(|a| a == "--check") && argv.iter().any(|a| a == "format-all"),
-        inplace_first: argv.first().is_some_and(|a| a == "-i") && argv.iter().any(|a| a == "format-all") };
+        inplace_first: argv.first().is_some_and(|a| a == "-i") && argv.iter().any(|a| a == "format-all"),
+        reverse_creation: v["extra"]["reverse_creation"].as_bool().unwrap_or(false) };
     let exp = expected(&tree, &inv);
     let obs = execute(&tree, &inv);
     let diffs = compare(&tree, &inv, &exp, &obs);
